@@ -22,14 +22,29 @@ type Seg struct {
 // Recipe describes bulk data.
 type Recipe []Seg
 
-// PRNG is a small deterministic generator (splitmix64).
-type PRNG struct{ s uint64 }
+// PRNG is a small deterministic generator (splitmix64). With a tape it
+// returns the tape's bytes first (eight per call, little endian) and falls
+// back to the generator when the tape is used up: this lets a coverage-guided
+// fuzzer own every decision of the specification-driven stream generator.
+type PRNG struct {
+	s    uint64
+	tape []byte
+}
+
+// NewTapePRNG returns a generator that replays tape before seed takes over.
+func NewTapePRNG(seed uint64, tape []byte) *PRNG { return &PRNG{s: seed, tape: tape} }
 
 // NewPRNG returns a generator for a seed.
-func NewPRNG(seed uint64) *PRNG { return &PRNG{seed} }
+func NewPRNG(seed uint64) *PRNG { return &PRNG{s: seed} }
 
 // Next returns the next 64 bits.
 func (p *PRNG) Next() uint64 {
+	if len(p.tape) > 0 {
+		var b [8]byte
+		n := copy(b[:], p.tape)
+		p.tape = p.tape[n:]
+		return uint64(b[0]) | uint64(b[1])<<8 | uint64(b[2])<<16 | uint64(b[3])<<24 | uint64(b[4])<<32 | uint64(b[5])<<40 | uint64(b[6])<<48 | uint64(b[7])<<56
+	}
 	p.s += 0x9E3779B97F4A7C15
 	z := p.s
 	z = (z ^ (z >> 30)) * 0xBF58476D1CE4E5B9
